@@ -58,6 +58,11 @@ probe_all! {
     PRED_NOT_ALTGR: bool = Modifiers { lshift: false, rshift: false, lctrl: false, rctrl: false, numlock: false, capslock: false, lalt: true, ralt: false, rctrl2: true }.is_altgr();
     PRED_CAPS: bool = Modifiers { lshift: true, rshift: false, lctrl: false, rctrl: false, numlock: false, capslock: true, lalt: false, ralt: false, rctrl2: false }.is_caps();
 
+    // a user-defined layout (12 KiB of tables): the trait is public, decoders over it must be constructible the same way
+    ED_BIG: EventDecoder<BigLayout> = EventDecoder::new(BigLayout::filled('x'), HandleControl::Ignore);
+    KB_BIG_S1: Keyboard<BigLayout, ScancodeSet1> = Keyboard::new(ScancodeSet1::new(), BigLayout::filled('y'), HandleControl::MapLettersToUnicode);
+    KB_BIG_S2: Keyboard<BigLayout, ScancodeSet2> = Keyboard::new(ScancodeSet2::new(), BigLayout::filled('z'), HandleControl::Ignore);
+
     // every key code through the const constructor (a const fn whose cost or validity depends on the key), and the
     // five predicates on all 512 modifier values, folded into one number each
     EVENTS_ALL_KEYS: u32 = {
